@@ -376,6 +376,14 @@ def ras_field_writes(ctx, q):
         if r == ('param', 1) and nm and kind in ('assign', 'call'):
             if any(x[0] == 'field' and x[3] == 'raqote::rasterizer::Rasterizer' for x in subterms(a)):
                 out.add(nm[0])
+    # a field whose address is taken mutably (`&mut self.active_edges as *mut _`: the list head is rewritten through
+    # the pointer) is dirtied as well
+    for blk in b.blocks:
+        for st in blk['st']:
+            if st.get('k') == 'assign' and st['rv'].get('k') in ('ref', 'rawptr') and st['rv'].get('mut', st['rv'].get('k') == 'rawptr'):
+                p = st['rv']['p']
+                if p['l'] == 1 and len(p['pr']) >= 2 and p['pr'][0].get('k') == 'deref' and p['pr'][1].get('k') == 'field' and p['pr'][1].get('adt') == 'raqote::rasterizer::Rasterizer' and len(p['pr']) == 2:
+                    out.add(p['pr'][1]['n'])
     return out
 
 
